@@ -57,6 +57,7 @@ def gen_cases(ctx):
             warm.append({"op": "inproc", "helper": h, "kind": kind, "args": a, "vals": vals, "g": [0, 0, 1]})
     cases = warm + cases
     cases.insert(0, {"op": "inproc", "helper": "mode", "kind": "float", "args": {"drop_na": False}, "vals": ["nan", "nan", 2.0, 5.5, 5.5], "g": [0, 0, 0, 1, 1]})
+    cases.insert(1, {"op": "inproc", "helper": "median", "kind": "float", "args": {"drop_na": False}, "vals": ["nan", 0.25, 0.25, "nan", "nan", 1.0], "g": [0, 0, 0, 0, 0, 1]})
     # several helpers on the same column in ONE aggregate() call ("in the same call")
     nm = 60 if ctx.tier == "quick" else 1500
     for _ in range(nm):
@@ -209,6 +210,8 @@ def compare(ctx, case, nb, py, label, prior):
         sig = f"order:{h}-after-minmax"
     elif h == "mode" and has_na and not dn:
         sig = "path:mode-with-missing"
+    elif h == "median" and has_na and not dn:
+        sig = "path:median-with-missing"
     elif h == "count_unique" and has_na and not dn:
         sig = f"path:count_unique-with-missing:{'date' if kind == 'date' else 'float'}"
     elif not ok:
@@ -247,7 +250,7 @@ def judge(ctx, case, obs, mouts):
             has_na = any(vecgen.is_na_val(case["kind"], v) for v in case["vals"])
             dn = case["args"].get("drop_na")
             dn = C07.drop_default(case["helper"]) if dn is None else dn
-            unspecified = case["helper"] in ("mode", "count_unique") and has_na and not dn
+            unspecified = case["helper"] in ("mode", "count_unique", "median") and has_na and not dn
             if isinstance(m, dict) and "err" in m:
                 ctx.violation("correspondence", "numba-model-error", f"model rejected the request: {m['err']}", case, obs, m)
             elif "err" not in nb and not unspecified:
